@@ -188,7 +188,7 @@ pub fn cases(prop: &str, tier: Tier, seed: u64) -> Vec<CaseDesc> {
             bases.push("gcedge:elem_funcref_expr_global_get.wat".to_string());
             let mut i = 0usize;
             for b in &bases {
-                for (ver, mode) in [(4, "f"), (5, "f"), (4, "s"), (5, "s"), (5, "z"), (4, "a"), (5, "a"), (4, "n"), (5, "n"), (4, "t"), (5, "t")] {
+                for (ver, mode) in [(4, "f"), (5, "f"), (4, "s"), (5, "s"), (5, "z"), (4, "a"), (5, "a"), (4, "n"), (5, "n"), (4, "t"), (5, "t"), (4, "k"), (5, "k")] {
                     let spec = format!("dwarf:{}:{}:{}", ver, mode, b);
                     let scn = match i % 5 { 0 => "rt:emit;cfg=27", 1 => "rt:emit,gc;cfg=27", 2 => "rt:emit,ins;cfg=27", 3 => "rt:emit,addfn;cfg=27", _ => "rt:emit,reedit;cfg=27" };
                     i += 1;
@@ -209,13 +209,14 @@ pub fn cases(prop: &str, tier: Tier, seed: u64) -> Vec<CaseDesc> {
             out.extend(with_scenario(crate::census::leb_specs(!q), "rt:emit,gc,probe;cfg=90"));
             out.extend(with_scenario(crate::census::leb_specs(false), "rt:emit,probe,ins;cfg=90"));
             out.extend(with_scenario(crate::census::leb_specs(false), "rt:emit,probe,addfn;cfg=90"));
+            out.extend(with_scenario(disk_corpus(false), "rt:emit,probe,reseq;cfg=90"));
             out.extend(with_scenario(disk_corpus(false), "rt:emit,gc,probe;cfg=90"));
             for (p, nq, nt) in [("full", 1500, 60_000), ("gcgraph", 800, 30_000), ("tiny", 500, 20_000)] {
                 let specs = g(p, nq, nt);
                 for (i, s) in specs.into_iter().enumerate() {
                     // every fifth case: ids come from an on_instr_loc callback (bit 128) instead of being the offsets
                     let cfgm = if i % 5 == 4 { 90 | 128 } else { 90 };
-                    let scn = match i % 4 { 0 => format!("rt:emit,gc,probe;cfg={}", cfgm), 1 => format!("rt:emit,probe,ins;cfg={}", cfgm), 2 => format!("rt:emit,probe,addfn;cfg={}", cfgm), _ => format!("rt:emit,probe,emptied;cfg={}", cfgm) };
+                    let scn = match i % 4 { 0 => format!("rt:emit,gc,probe;cfg={}", cfgm), 1 => format!("rt:emit,probe,ins{};cfg={}", if i % 8 == 1 { ",reseq" } else { "" }, cfgm), 2 => format!("rt:emit,probe,addfn;cfg={}", cfgm), _ => format!("rt:emit,probe,emptied;cfg={}", cfgm) };
                     out.push(CaseDesc { spec: s, scenario: scn });
                 }
             }
